@@ -28,6 +28,7 @@ def run(ctx):
     seeds = [ctx.rng.randrange(1 << 30) for _ in range(n)]
     tasks = [dict(fn="tasks_rt:async_schedules", args=dict(seed=s, nsteps=nsteps, tie=(i % 3 == 2)), timeout=400) for i, s in enumerate(seeds)]
     tasks += [dict(fn="tasks_rt:async_schedules", args=dict(seed=ctx.rng.randrange(1 << 30), nsteps=nsteps, family="tie_advance"), timeout=400) for _ in range(ctx.n(2, 4))]
+    tasks += [dict(fn="tasks_rt:async_schedules", args=dict(seed=ctx.rng.randrange(1 << 30), nsteps=nsteps, family="fifo_blocking"), timeout=400) for _ in range(ctx.n(2, 4))]
     good = ac.pool_cases(tasks, res, timeout=400)
     cmds = [r["cfg"] for _, r in good]
     outs = ac.run_driver_parallel(cmds) if (ctx.driver is not None and cmds) else [None] * len(cmds)
